@@ -128,14 +128,16 @@ Example fde_program_ex :
 Proof. vm_compute. reflexivity. Qed.
 
 (* ---------------------------------------------------------------------------------------------- *)
-(* (4) entry_layout — every written CIE/FDE, in both formats (4- or 12-byte initial length), has
-   |entry| = (4 or 12) + length a multiple of a power-of-two address size; the length field holds the
+(* (4) entry_layout — an entry is only written for an address size of 1, 2, 4 or 8 (anything else is
+   UnsupportedWordSize, see unsupported_address_size_is_error); every written CIE/FDE, in both formats
+   (4- or 12-byte initial length), has |entry| = (4 or 12) + length a multiple of the address size; the length field holds the
    size of the rest; the area after the header decodes to exactly the supplied instructions followed by
    fewer than address_size DW_CFA_nop and nothing else. (The 64-bit format was padded relative to 8
    instead of 12 until repo d2e46aa; see known_findings.txt.) *)
 Theorem entry_layout_cie : forall (dbg be eh : bool) (pos : N) (c : cie) bs,
-  cie_wf c = true -> is_pow2 (c_asize c) = true ->
+  cie_wf c = true ->
   cie_write dbg be eh pos c = Ok bs ->
+  asz_ok (c_asize c) /\
   exists il hdr area,
     bs = il ++ hdr ++ area /\
     write_initial_length (c_fmt64 c) be (len (hdr ++ area)) = Ok il /\ len il = ilen_size (c_fmt64 c) /\
@@ -145,8 +147,9 @@ Theorem entry_layout_cie : forall (dbg be eh : bool) (pos : N) (c : cie) bs,
 Proof. exact entry_layout_cie_pack. Qed.
 
 Theorem entry_layout_fde : forall (dbg be eh : bool) (pos coff : N) (c : cie) (f : fde) bs,
-  cie_wf c = true -> is_pow2 (c_asize c) = true -> fde_wf f = true ->
+  cie_wf c = true -> fde_wf f = true ->
   fde_write dbg be eh pos coff c f = Ok bs ->
+  asz_ok (c_asize c) /\
   exists il hdr area,
     bs = il ++ hdr ++ area /\
     write_initial_length (c_fmt64 c) be (len (hdr ++ area)) = Ok il /\ len il = ilen_size (c_fmt64 c) /\
@@ -162,7 +165,7 @@ Proof. eexists. vm_compute. repeat split. Qed.
 
 Definition cie_ex : cie := mkCie false 1 8 1 (-8) 16 (Some (27, AConst 4660)) (Some 27) 27 true [Cfa 7 8; Offset 16 (-8)].
 Example entry_layout_ex :
-  cie_wf cie_ex = true /\ is_pow2 (c_asize cie_ex) = true /\
+  cie_wf cie_ex = true /\
   cie_write true false true 0 cie_ex =
     Ok [x1c; x00; x00; x00; x00; x00; x00; x00; x01; x7a; x4c; x50; x52; x53; x00; x01; x78; x10; x07; x1b; x1b;
         x1f; x12; x00; x00; x1b; x0c; x07; x08; x90; x01; x00].
@@ -226,7 +229,8 @@ Proof. vm_compute. reflexivity. Qed.
    area decodes to the initial instructions plus nop padding; every FDE tile parses to the offset of
    its CIE's tile, its address range and LSDA, and its instruction area decodes to the supplied
    instructions at their code offsets plus nop padding.
-   Hypotheses: operand typing, address sizes 1/2/4/8, section below 2^64. (An FDE whose LSDA presence
+   Hypotheses: operand typing, section below 2^64 (a table with another address size than 1/2/4/8 is
+   not written: unsupported_address_size_is_error). (An FDE whose LSDA presence
    disagrees with its CIE's lsda_encoding is not written at all: lsda_mismatch_is_error.)
    NOT part of the theorem: the evaluated unwind rows themselves — they are the image of the two decoded
    programs under the CFA machine, whose model (CfiRun, C06) and the reader's own parser model (CfiRd,
@@ -240,7 +244,6 @@ Proof. exact write_eh_pointer_reads. Qed.
 
 Theorem cie_header_read : forall (dbg be eh : bool) (pos : N) (c : cie) bs,
   cie_wf c = true ->
-  (c_asize c = 1 \/ c_asize c = 2 \/ c_asize c = 4 \/ c_asize c = 8) ->
   pos + len bs < 18446744073709551616 ->
   cie_write dbg be eh pos c = Ok bs ->
   exists il body insns pad,
@@ -253,7 +256,6 @@ Proof. exact cie_header_reads. Qed.
 
 Theorem fde_header_read : forall (dbg be eh : bool) (pos coff : N) (c : cie) (f : fde) bs,
   cie_wf c = true -> fde_wf f = true ->
-  (c_asize c = 1 \/ c_asize c = 2 \/ c_asize c = 4 \/ c_asize c = 8) ->
   pos + len bs < 18446744073709551616 -> coff <= pos ->
   fde_write dbg be eh pos coff c f = Ok bs ->
   exists il body insns pad,
@@ -266,7 +268,7 @@ Theorem fde_header_read : forall (dbg be eh : bool) (pos coff : N) (c : cie) (f 
 Proof. exact fde_header_reads. Qed.
 
 Theorem table_roundtrip : forall (dbg be eh : bool) (pos : N) (t : ftable) bs,
-  Forall (fun c => cie_wf c = true /\ asz_ok (c_asize c)) (t_cies t) ->
+  Forall (fun c => cie_wf c = true) (t_cies t) ->
   Forall (fun p => fde_wf (snd p) = true) (t_fdes t) ->
   pos + len bs < 18446744073709551616 ->
   write_table dbg be eh pos t = Ok bs ->
@@ -276,10 +278,10 @@ Theorem table_roundtrip : forall (dbg be eh : bool) (pos : N) (t : ftable) bs,
     reads_back be eh (t_cies t) (t_fdes t) pos [] chunks.
 Proof. exact table_roundtrip_pack. Qed.
 
-(* the weaker form without the header hypotheses (any power-of-two address size, no LSDA condition):
-   tiles in plan order whose instruction areas decode to the supplied programs *)
+(* the weaker form without the bound on the section size: tiles in plan order whose instruction areas
+   decode to the supplied programs *)
 Theorem table_roundtrip_partial : forall (dbg be eh : bool) (pos : N) (t : ftable) bs,
-  Forall (fun c => cie_wf c = true /\ is_pow2 (c_asize c) = true) (t_cies t) ->
+  Forall (fun c => cie_wf c = true) (t_cies t) ->
   Forall (fun p => fde_wf (snd p) = true) (t_fdes t) ->
   write_table dbg be eh pos t = Ok bs ->
   exists chunks,
@@ -304,7 +306,7 @@ Proof. vm_compute. split; reflexivity. Qed.
 
 Definition table_ex : ftable := mkTable [cie_a; cie_b] [(0%nat, fde_a 4096); (1%nat, fde_a 8192); (0%nat, fde_a 12288)].
 Example table_hyps_ex :
-  Forall (fun c => cie_wf c = true /\ is_pow2 (c_asize c) = true) (t_cies table_ex) /\
+  Forall (fun c => cie_wf c = true) (t_cies table_ex) /\
   Forall (fun p => fde_wf (snd p) = true /\ exists c, nth_error (t_cies table_ex) (fst p) = Some c) (t_fdes table_ex) /\
   exists bs, write_table true false true 0 table_ex = Ok bs /\ length bs = 96%nat.
 Proof.
@@ -312,31 +314,39 @@ Proof.
   - repeat constructor; eexists; reflexivity.
   - eexists. split; [vm_compute; reflexivity|reflexivity].
 Qed.
-Example table_roundtrip_hyps_ex :
-  Forall (fun c => cie_wf c = true /\ asz_ok (c_asize c)) (t_cies table_ex) /\
-  Forall (fun p => fde_wf (snd p) = true) (t_fdes table_ex).
-Proof.
-  assert (A4 : asz_ok 4) by (right; right; left; reflexivity).
-  split.
-  - constructor; [split; [reflexivity|exact A4]|]. constructor; [split; [reflexivity|exact A4]|constructor].
-  - repeat constructor.
-Qed.
 
 (* ---------------------------------------------------------------------------------------------- *)
-(* no_panic — the table writer never panics on well-typed tables whose address sizes are powers of
-   two and whose FDEs name CIEs of the table, in both build modes; building a table panics only in a
-   checked build on decreasing instruction offsets (debug_assert in add_instruction; a release build
-   reports InvalidFrameCodeOffset when writing). *)
+(* no_panic — the table writer never panics on well-typed tables whose FDEs name CIEs of the table, for
+   EVERY address size (u8) and both build modes; building a table panics only in a checked build on
+   decreasing instruction offsets (debug_assert in add_instruction; a release build reports
+   InvalidFrameCodeOffset when writing). *)
 Theorem no_panic_write : forall (dbg be eh : bool) (pos : N) (t : ftable),
-  Forall (fun c => cie_wf c = true /\ is_pow2 (c_asize c) = true) (t_cies t) ->
+  Forall (fun c => cie_wf c = true) (t_cies t) ->
   Forall (fun p => fde_wf (snd p) = true /\ exists c, nth_error (t_cies t) (fst p) = Some c) (t_fdes t) ->
   write_table dbg be eh pos t <> Panic.
 Proof. exact write_table_np. Qed.
 
+(* an address size other than 1, 2, 4 or 8 (0 included) is UnsupportedWordSize when the entry is padded:
+   no CIE or FDE with such a size is ever written, and nothing panics or loops *)
+Theorem unsupported_address_size_is_error : forall (dbg be eh : bool) (pos coff : N) (c : cie) (f : fde),
+  ~ asz_ok (c_asize c) ->
+  (forall body, close_entry dbg be (c_fmt64 c) (c_asize c) body = Err WUnsupportedWordSize) /\
+  (forall bs, cie_write dbg be eh pos c <> Ok bs) /\
+  (forall bs, fde_write dbg be eh pos coff c f <> Ok bs) /\
+  (cie_wf c = true -> cie_write dbg be eh pos c <> Panic) /\
+  (cie_wf c = true -> fde_wf f = true -> coff <= pos -> fde_write dbg be eh pos coff c f <> Panic).
+Proof. exact unsupported_address_size_pack. Qed.
+
+Example unsupported_address_size_ex :
+  build_and_write true false false 0 [BAddCie (mkCie false 1 0 1 1 8 None None 0 false []); BAddFde 0 (fde_a 0)] = Err WUnsupportedWordSize
+  /\ build_and_write false false false 0 [BAddCie (mkCie false 1 0 1 1 8 None None 0 false []); BAddFde 0 (fde_a 0)] = Err WUnsupportedWordSize
+  /\ build_and_write true false true 0 [BAddCie (mkCie true 1 16 1 1 8 None None 27 false []); BAddFde 0 (fde_a 0)] = Err WUnsupportedWordSize.
+Proof. vm_compute. repeat split. Qed.
+
 (* an FDE whose LSDA presence disagrees with its CIE's lsda_encoding is never written and never panics:
    once the CIE pointer and the address range have been written the result is InvalidAddress *)
 Theorem lsda_mismatch_is_error : forall (dbg be eh : bool) (pos coff : N) (c : cie) (f : fde),
-  cie_wf c = true -> is_pow2 (c_asize c) = true -> fde_wf f = true -> coff <= pos ->
+  cie_wf c = true -> fde_wf f = true -> coff <= pos ->
   lsda_ok c f = false ->
   (forall bs, fde_write dbg be eh pos coff c f <> Ok bs) /\
   fde_write dbg be eh pos coff c f <> Panic /\
@@ -355,15 +365,12 @@ Theorem no_panic_build : forall (dbg : bool) (ops : list bop) t ids,
   (dbg = true -> ops_sorted ops = true) -> build dbg t ids ops <> Panic.
 Proof. exact build_np. Qed.
 
-(* the excluded cases do panic in the model, as they do in gimli *)
+(* the excluded case does panic in the model, as it does in gimli *)
 Example panic_ex_decreasing :
   build_and_write true false false 0 [BAddCie cie_a; BAddFde 0 (mkFde (AConst 0) 8 None [(4, RememberState); (0, RestoreState)])] = Panic
   /\ build_and_write false false false 0 [BAddCie cie_a; BAddFde 0 (mkFde (AConst 0) 8 None [(4, RememberState); (0, RestoreState)])]
      = Err WInvalidFrameCodeOffset.
 Proof. vm_compute. split; reflexivity. Qed.
-Example panic_ex_address_size :
-  build_and_write true false false 0 [BAddCie (mkCie false 1 3 1 1 8 None None 0 false []); BAddFde 0 (fde_a 0)] = Panic.
-Proof. vm_compute. reflexivity. Qed.
 Example lsda_mismatch_ex :
   build_and_write true false false 0 [BAddCie cie_b; BAddFde 0 (mkFde (AConst 0) 8 (Some (AConst 9)) [])] = Err WInvalidAddress
   /\ build_and_write false false false 0 [BAddCie cie_a; BAddFde 0 (mkFde (AConst 0) 8 (Some (AConst 9)) [])] = Err WInvalidAddress
@@ -377,4 +384,4 @@ Check insn_write_read. Check fde_program_read. Check cie_program_read.
 Check entry_layout_cie. Check entry_layout_fde.
 Check cie_eqb_eq. Check cie_dedup_ids. Check cie_dedup_emission. Check plan_spec.
 Check pointer_read_back. Check cie_header_read. Check fde_header_read. Check table_roundtrip.
-Check table_roundtrip_partial. Check no_panic_write. Check lsda_mismatch_is_error. Check no_panic_build.
+Check table_roundtrip_partial. Check no_panic_write. Check unsupported_address_size_is_error. Check lsda_mismatch_is_error. Check no_panic_build.
